@@ -152,6 +152,12 @@ Proof.
   intros [k v|k]; cbn; now rewrite st_rkey_bkey.
 Qed.
 
+(* Replay of a table's batch into ANOTHER batch: the destination stores the source's operations
+   re-prefixed with the DESTINATION's own key translation, independent of the source's prefix *)
+Theorem replay_into_batch xs xd (ls stored_d : list wop) :
+  fold_left (st_badd xd) (st_breplay xs (map (st_bop xs) ls)) stored_d = stored_d ++ map (st_bop xd) ls.
+Proof. now rewrite st_badd_fold, st_breplay_bop. Qed.
+
 (* ---------- the run invariant ---------- *)
 
 Definition brel (s : st) (mb sb : handle * list wop) : Prop :=
@@ -236,7 +242,7 @@ Lemma step1_refines ideal r sr o : RS r sr -> op_wf o ->
   map erase (snd (run_op1 ideal r o)) = snd (spec_run_op1 sr o).
 Proof.
   intros [HR HB HS HL] W.
-  destruct o as [h k v|h k|h k|h k|h p s0|b h|b k v|b k|b|b|b|d|d|d|h|i k|i k|i p s0|h a l|h a l|i h p s0|i n|i|h pr|d];
+  destruct o as [h k v|h k|h k|h k|h p s0|b h|b k v|b k|b|b|b|d|d|d|h|i k|i k|i p s0|h a l|h a l|i h p s0|i n|i|h pr|b1 b2|d];
     cbn [op_wf] in W.
   - (* put *) destruct W as [Wh Wk]. cbn. split; [|reflexivity].
     assert (K : sk (h_upd h (fun x => st_put x k v) (r_store r)) (r_store r))
@@ -351,6 +357,19 @@ Proof.
     destruct (nth i (ss_lives sr) None); cbn; (split; [constructor; cbn; auto|reflexivity]).
   - (* live iterator: release *) cbn. split; [|reflexivity]. constructor; cbn; auto. now rewrite HL.
   - (* stat *) cbn. split; [constructor; auto|reflexivity].
+  - (* replay into another batch *) unfold run_op1, spec_run_op1.
+    pose proof (Forall2_nth _ _ _ _ _ b1 HB (brel_default (r_store r))) as Hb1.
+    pose proof (Forall2_nth _ _ _ _ _ b2 HB (brel_default (r_store r))) as Hb2.
+    unfold get_batch, sget_batch.
+    destruct (nth b1 (r_batches r) (h0, [])) as [h1 st1]. destruct (nth b1 (ss_batches sr) (h0, [])) as [h1' l1].
+    destruct (nth b2 (r_batches r) (h0, [])) as [h2 st2]. destruct (nth b2 (ss_batches sr) (h0, [])) as [h2' l2].
+    destruct Hb1 as (E1 & Wh1 & M1 & F1). destruct Hb2 as (E2 & Wh2 & M2 & F2).
+    cbn in E1, Wh1, M1, F1, E2, Wh2, M2, F2. subst h1' h2'. cbn [fst snd map].
+    split; [|reflexivity]. constructor; cbn; auto.
+    apply Forall2_set_nth; auto using brel_default.
+    repeat split; cbn; auto.
+    + rewrite st_badd_fold, M1, st_breplay_bop, M2, map_app. reflexivity.
+    + apply Forall_app. split; auto.
   - (* init *) cbn. split; [|reflexivity].
     assert (K : sk (st_upd d st_init (r_store r)) (r_store r)) by (apply sk_upd, sk_init).
     constructor; cbn; auto.
